@@ -87,7 +87,7 @@ RecvFindings(s, e) ==
        (\E i \in 1..Len(s.itemEnd) : s.itemLen[i] >= s.c.J /\ s.itemEnd[i] <= b /\ s.itemEnd[i] - s.itemLen[i] + 1 >= a),
        "C11", "an input slice of at least JoinSize is not delivered after everything accumulated before it")
   \* ---- C08 (copy mode): no memory shared with an earlier output
-  \o F(~s.c.nocopy /\ e.mem # 0 /\ e.mem \in s.mems, "C08", "copy-mode output shares memory with an earlier output")
+  \o F(~s.c.nocopy /\ e.rmem # 0 /\ e.rmem \in s.mems, "C08", "copy-mode output shares memory with an earlier output")
   \* ---- C09: the PREVIOUS slice is now known not to be the final one
   \o F(s.prev.short /\ ~(Timed(s) /\ s.prev.dt >= s.c.T), "C09", "non-maximal non-final slice delivered earlier than Timeout after the previous delivery")
   \* ---- C10: age at delivery of every element that never met an unready consumer
@@ -112,9 +112,9 @@ EvUpd(s, e) ==
          IN [s EXCEPT !.nRecv = k,
                       !.lastId = IF e.elems = <<>> THEN @ ELSE Max(@, LastOf(e.elems)),
                       !.exp = Append(@, [elems |-> e.elems, tail |-> e.tail]),
-                      !.mems = @ \cup (IF e.mem = 0 THEN {} ELSE {e.mem}),
+                      !.mems = @ \cup (IF e.rmem = 0 THEN {} ELSE {e.rmem}),
                       !.prev = [short |-> ~Maximal(s, e, k), dt |-> p.at - pp, idx |-> l + 1]]
-    [] e.ev = "Scribble" -> IF e.x \in 1..Len(s.exp) THEN [s EXCEPT !.exp[e.x].elems = e.elems] ELSE s
+    [] e.ev = "Scribble" -> IF e.x \in 1..Len(s.exp) THEN [s EXCEPT !.exp[e.x].elems = e.elems, !.exp[e.x].tail = e.tail] ELSE s
     [] e.ev = "Release" -> IF e.ok THEN [s EXCEPT !.nRel = @ + 1] ELSE s
     [] e.ev = "Adv" -> IF s.lastOutlen > 0 \/ (s.c.nocopy /\ s.nRecv > s.nRel) THEN [s EXCEPT !.notReadyAt = s.lastNow] ELSE s
     [] e.ev = "Stop" -> [s EXCEPT !.haltAt = IF @ < 0 THEN e.now ELSE @, !.stopAsked = TRUE]
